@@ -62,10 +62,18 @@ def f_qctor_wxyz : Family := { name := "qctor_wxyz", kind := .syn, keys := [[]],
 def f_qctor_sv : Family := { name := "qctor_sv", kind := .syn, keys := [[]], nOut := fun _ => 4, spec := fun _ j => v j }
 /-- matrices from scalars / from column vectors: column-major fill, argument order = memory order -/
 def f_mctor : Family :=
-  { name := "mctor", kind := .syn, keys := [[22],[33],[44],[23],[43]], nOut := fun k => (k0 k / 10) * (k0 k % 10), spec := fun _ j => v j }
+  { name := "mctor", kind := .syn, keys := shapes, nOut := fun k => k0 k * k1 k, spec := fun _ j => v j }
 def f_mctorc : Family :=
-  { name := "mctorc", kind := .syn, keys := [[33],[42]], nOut := fun k => (k0 k / 10) * (k0 k % 10), spec := fun _ j => v j }
+  { name := "mctorc", kind := .syn, keys := shapes, nOut := fun k => k0 k * k1 k, spec := fun _ j => v j }
+/-- single scalar: the diagonal -/
+def f_mdiag : Family :=
+  { name := "mdiag", kind := .syn, keys := shapes, nOut := fun k => k0 k * k1 k, spec := fun k j => if j / k1 k = j % k1 k then v 0 else zero }
+/-- `mat<C,R>(mat<C2,R2>)`: the overlapping block, the rest from the identity -/
+def f_mconv : Family :=
+  { name := "mconv", kind := .syn, keys := shapes.flatMap fun s => shapes.map fun t => s ++ t, nOut := fun k => k0 k * k1 k,
+    spec := fun k j => let c := j / k1 k; let r := j % k1 k
+      if c < k2 k ∧ r < k3 k then v (c * k3 k + r) else if c = r then one else zero }
 
-def families : List Family := [f_swzf, f_swzm1s0, f_swzm1s1, f_swzm1s2, f_swzm2s0, f_swzm2s1, f_swzm2s2, f_swza, f_ctor, f_qctor_wxyz, f_qctor_sv, f_mctor, f_mctorc]
+def families : List Family := [f_swzf, f_swzm1s0, f_swzm1s1, f_swzm1s2, f_swzm2s0, f_swzm2s1, f_swzm2s2, f_swza, f_ctor, f_qctor_wxyz, f_qctor_sv, f_mctor, f_mctorc, f_mdiag, f_mconv]
 
 end Glm.Spec.C17
